@@ -28,3 +28,13 @@ Theorem C07_inconsistent_invokes_nothing : forall hc hu lc init now nf carried v
   d_invoked (process_at hc hu lc init now nf carried false v oracle) = [].
 Proof. exact inconsistent_invokes_nothing. Qed.
 Print Assumptions C07_inconsistent_invokes_nothing.
+
+(* "Absent crashes, lost API responses and echo delays beyond the consistency timeout, every handler succeeds at
+   most once per cycle": along EVERY strict history, the number of successful invocations of a handler since its
+   progress record was last absent from the object (records are removed only when a cycle is closed or superseded)
+   never exceeds one, and after a success the object carries its `success` record. *)
+Theorem C02_once_per_cycle : forall hc hu lc T, NoDup (hc ++ hu) ->
+  forall w c, counted hc hu lc T w c -> forall h, In h (owned hc hu) ->
+  c h <= 1 /\ (c h = 1 -> rget h (o_recs (w_srv w)) = Some (HDone true)).
+Proof. exact at_most_one_success_between_purges. Qed.
+Print Assumptions C02_once_per_cycle.
